@@ -12,7 +12,7 @@ from tools import wire
 
 TIERS = {
     "quick": dict(nprof=2, maxlen=2, deep=False, nshards=4, workers=4, timeout=900),
-    "thorough": dict(nprof=6, maxlen=3, deep=True, nshards=8, workers=2, timeout=3000),
+    "thorough": dict(nprof=4, maxlen=3, deep=True, nshards=8, workers=2, timeout=3300),
 }
 
 REQUIRED_ACTIONS = [
@@ -23,12 +23,16 @@ REQUIRED_ACTIONS = [
 ]
 
 
-def explore(tier, tag, only="", extra_objects=None, lowered_name=None, faults="0", fault_every=1, nprof=None):
+def explore(tier, tag, only="", extra_objects=None, lowered_name=None, faults="0", fault_every=1, nprof=None, maxlen=None, deep=None):
     t = dict(TIERS[tier])
     if only:
         t["nshards"], t["workers"] = 1, 4
     if nprof is not None:
         t["nprof"] = nprof
+    if maxlen is not None:
+        t["maxlen"] = maxlen
+    if deep is not None:
+        t["deep"] = deep
     t["faults"], t["fault_every"] = faults, fault_every
     ldir, lw, corpus = wire.prepare(lowered_name or ("lowered-" + tag), extra_objects)
     outdir = os.path.join(C.WORK, "wire-" + tag)
